@@ -377,7 +377,7 @@ def run_handlers(rec, F):
             if not oks:
                 rec.finding(R, "F1.c-exec/%s/strings" % opc, "%s does not order strings by cmp(second-popped, first-popped) == Ordering::%s%s" % (fn.name, ordering, " with the equality shortcut" if mirop in ("Le", "Ge") else ""), loc=fn.loc, fn=fn.path)
         # other operand kinds raise
-        errs = [t for _, t in fn.calls() if lastseg(t["f"]).startswith("runtime_error")]
+        errs = [t for _, t in fn.calls() if lastseg(t["f"]).startswith("runtime_error") or sem.is_error_call(F, t)]
         rec.inst(R, "%s: wrong-typed operands raise" % opc, ok=bool(errs), loc=fn.loc)
         if not errs:
             rec.finding(R, "F1.c-exec/%s/raise" % opc, "%s has no runtime-error path for operands of the wrong type" % fn.name, loc=fn.loc, fn=fn.path)
@@ -386,7 +386,7 @@ def run_handlers(rec, F):
     fn = F.fn(ts[0]["f"]) if len(ts) == 1 else None
     if fn is not None:
         neg = [s for _, _, s in fn.stmts() if s["r"]["k"] == "un" and s["r"]["op"] == "Neg"]
-        ok = len(neg) == 1 and any(lastseg(t["f"]).startswith("runtime_error") for _, t in fn.calls())
+        ok = len(neg) == 1 and any(lastseg(t["f"]).startswith("runtime_error") or sem.is_error_call(F, t) for _, t in fn.calls())
         rec.inst(R, "Negate: f64 negation, non-numbers raise", ok=ok, loc=fn.loc)
         if not ok:
             rec.finding(R, "F1.c-exec/Negate", "op_negate is not (number test, f64 negation, error otherwise)", loc=fn.loc, fn=fn.path)
